@@ -150,6 +150,8 @@ class Funcs:
         self.decls = []
         self.skipped = []
         self.eval_names = []
+        self.define_c = {}
+        self.enum_names = []
 
     def fn(self, name):
         it = self.m.src.fn(name, within=self.m.impl, name='%s::%s::%s' % (self.m.name.lower(), self.m.name, name))
@@ -176,6 +178,9 @@ class Funcs:
             self.type_fns(t, T)
         for r in m.rels:
             self.rel_fns(r)
+        if self.with_define:
+            for t, T in m.types.items():
+                self.enum_new_fn(t, T)
         # ---- is_dirty
         parts = ['self.dirty_flag()'] + ['nonempty(self.t_%s_new())' % r for r in m.rels]
         for t in m.types:
@@ -484,6 +489,35 @@ class Funcs:
         }""" % {'r': r, 'sy': G.seq_lit(args + ['y.0'])})
         return it
 
+    # ------------------------------------------------------------------------------------------------
+    # new_<enum>(value: <Enum>Case): one match arm per constructor, each calling define_<constructor>; the contract is the
+    # contract of that define_ under the arm's bindings (C15: "new_<enum>(Case) returns the value of the constructor application")
+    def enum_new_fn(self, t, T):
+        m = self.m
+        if not re.search(r'pub fn new_%s\(&mut self,\s*value: %sCase\)' % (t, T), m.impl.orig):
+            return
+        it = self.fn('new_%s' % t)
+        # the constructors come from the emitted enum DECLARATION (not from the body under proof): variant `Ctor(T0, ..)` stands for the
+        # application of the function `ctor` (snake case) to its fields
+        en = m.src.item(r'pub enum %sCase\s*\{' % T, name='%sCase' % T)
+        variants = re.findall(r'^\s*(\w+)\(([^)]*)\),', en.orig[en.body_open + 1:], re.M)
+        if not variants:
+            raise G.Unsupported('new_%s: no variants found in enum %sCase' % (t, T))
+        pre_arms, post_arms = [], []
+        camel_to_snake = {V: k for k, V in m.types.items()}
+        for ctor, fields in variants:
+            r = re.sub(r'(?<!^)(?=[A-Z])', '_', ctor).lower()
+            ftys = [camel_to_snake.get(x.strip()) for x in fields.split(',') if x.strip()]
+            if r not in self.define_c or self.define_c[r][2] != len(ftys) or list(m.rel_types[r]) != ftys + [t]:
+                raise G.Unsupported('new_%s: constructor %s has no define_%s of matching signature under contract' % (t, ctor, r))
+            pre, post, k = self.define_c[r]
+            binds = ', '.join('el%d' % i for i in range(k))
+            pre_arms.append('%sCase::%s(%s) => %s' % (T, ctor, binds, ' && '.join(['true'] + [p for p in pre if p.startswith('el')])))
+            post_arms.append('%sCase::%s(%s) => (%s)' % (T, ctor, binds, ')\n                && ('.join(post)))
+        self.emit(it, ('res', 'requires old(self).inv(), old(self).n_%s() + 1 < u32::MAX,\n            match value { %s },\n        ensures match value {\n            %s,\n        },'
+                       % (t, ', '.join(pre_arms), ',\n            '.join(post_arms))), '')
+        self.enum_names.append(it.name)
+
     def same_hints(self, except_type=None):
         m = self.m
         out = []
@@ -599,6 +633,7 @@ class Funcs:
                 post = [p for p in post if not p.startswith('//')]
                 pre = ['old(self).inv()', 'old(self).n_%s() + 1 < u32::MAX' % rt] + ['el%d.0 < old(self).n_%s()' % (i, tys[i]) for i in range(k)]
                 els_l = ', '.join('el%d' % i for i in range(k))
+                self.define_c[r] = (pre, post, k)
                 self.emit(self.fn('define_%s' % r), ('res', 'requires %s,\n        ensures %s,' % (', '.join(pre), ',\n            '.join(post))),
                           '')
         # ---- insert
@@ -687,9 +722,9 @@ def build(repo, canary=False, probes=None, part='main'):
     uf.declarations(A, repo)
     models = [G.Model(out[k]) for k in sorted(out)]
     ar = sorted(set(a for m in models for a in m.tree_arities()))
-    if part in ('define', 'main'):
+    if part in ('define', 'main', 'enum'):
         ar = sorted(set(ar) | set(range(1, max(ar) + 1)))      # get() hands out subtrees of every smaller arity
-    pt.declarations(A, repo, ar, with_iter=True, with_get=(part in ('define', 'main')))
+    pt.declarations(A, repo, ar, with_iter=True, with_get=(part in ('define', 'main', 'enum')))
     A.spec(os.path.join(HERE, '..', 'spec', 'gen.rs'))
     for nn in sorted(set(len(m.rels[r]) for m in models for r in m.rels if m.element_indices(r))):
         A.text(ei_spec(nn), 'element index vocabulary for rows of %d columns' % nn)
@@ -700,7 +735,7 @@ def build(repo, canary=False, probes=None, part='main'):
         for T in m.types.values():
             st = m.src.item(r'pub struct %s\(pub u32\);' % T, name=T)
             A.item(st)
-            if part == 'main':
+            if part in ('main', 'enum'):
                 for pat in (r'impl Into<u32> for %s\s*\{' % T, r'impl From<u32> for %s\s*\{' % T):
                     A.item(m.src.item(pat, name=T))
             else:
@@ -712,6 +747,8 @@ def build(repo, canary=False, probes=None, part='main'):
             A.text('impl Clone for %s { fn clone(&self) -> Self { *self } }\nimpl Copy for %s {}\nimpl PartialEq for %s { #[verifier::external_body] fn eq(&self, other: &Self) -> (r: bool) ensures r == (self.0 == other.0) { self.0 == other.0 } }\n' % (T, T, T),
                    'stand-ins for #[derive(Copy, Clone, PartialEq)] of the newtype (derived PartialEq is structural)')
             A.text(type_spec_impls(T), 'spec impls for the newtype')
+            if re.search(r'pub enum %sCase\s*\{' % T, m.src.text):
+                A.item(m.src.item(r'pub enum %sCase\s*\{' % T, name='%sCase' % T))
         for mm in re.finditer(r'const (\w+_WEIGHT): usize = \d+;', m.src.text):
             A.item(m.src.item(r'const %s: usize' % mm.group(1), name=mm.group(1)))
         if getattr(m, 'delta_fields', None):
@@ -724,14 +761,14 @@ def build(repo, canary=False, probes=None, part='main'):
         A.item(m.struct)
         A.text(m.impl.header(), 'impl header of the model (from the emitted text)')
         A.text(G.ghost_impl(m), 'GENERATED ghost accessors and representation invariant')
-        fs = Funcs(m, canary, with_define=(part in ('define', 'main')), with_move=(part == 'move'))
+        fs = Funcs(m, canary, with_define=(part in ('define', 'main', 'enum')), with_move=(part == 'move'))
         its = fs.all()
         for d in fs.decls:
             A.text(d, 'evaluation function declared by contract only (assumption; bounded-checked by the native harness)')
         for it in its:
             A.item(it)
         A.skipped = getattr(A, 'skipped', []) + fs.skipped
-        A.exec_names += [x for x in fs.names if part == 'main' or (part == 'define' and ('::define_' in x or x in fs.eval_names)) or (part == 'move' and x.endswith('::move_new_to_old'))]
+        A.exec_names += [x for x in fs.names if part == 'main' or (part == 'define' and ('::define_' in x or x in fs.eval_names)) or (part == 'move' and x.endswith('::move_new_to_old')) or (part == 'enum' and x in fs.enum_names)]
         A.text('}\n}\n', 'impl / module close')
     A.text('} // verus!\nfn main() {}\n', 'footer')
     return A
